@@ -14,11 +14,11 @@ SPEC = dict(
     level_note='In the coverage proofs find_subsequence_indices enters through its contract over opaque annotations (ascending, in range, '
                'exactly the occurrences OCC) -- the clauses proved in contracts/search.py with OCC written out. Assumed there: LC-REGEX-LITERAL '
                '(re.finditer with a residue string and overlapped=True yields every literal occurrence, ascending), A-WHOLE-SLICE (slicing out '
-               'the whole peptide gives an equal peptide), symmetry / transitivity of == (proved as lemmas under C20), the slice and == contracts '
+               'the whole peptide gives an equal peptide: proved in contracts/wholeslice.py from the C11 / C20 contracts for well-formed peptides, assumed for stretches cut through an interval), symmetry / transitivity of == (proved as lemmas under C20), the slice and == contracts '
                '(proved under C11 / C20), sequence_length. Annotation objects are opaque in the proofs; purity of the two callees is C08\'s frame '
                'claim. SPEC-SUM fold definition. Trusted: pyvc, z3/cvc5.',
     design_ref='DESIGN.md section 6, C16',
-    contracts=['seqfuncs', 'search'],
+    contracts=['seqfuncs', 'search', 'wholeslice'],
     bounded=[dict(name='C16-bounded', script='bounded/C16.py')],
     replay_finder='bounded/C16.py',
     explanation='deductive obligations for coverage/percent_coverage (all discharged) + exhaustive bounded check of the occurrence search; '
